@@ -146,7 +146,7 @@ def _has_role(tb: TermBuilder, a: Atom, role: str) -> bool:
 
 
 def _gae(ck: Check, repo: Repo, fn: Fn, depth: int) -> None:
-    from ._c17_r3b import gae_model, pretty
+    from ._c17_r3b import _in, gae_model, pretty, push_idx
     M = gae_model(repo, fn, depth)
     cfg, tb, R = M.cfg, M.tb, M.R
     label = fn.qualname
@@ -154,8 +154,9 @@ def _gae(ck: Check, repo: Repo, fn: Fn, depth: int) -> None:
     # X[t] += expr ...); loop-carried successors are resolved to what the previous iteration assigned (see _c17_r3b)
     rn, L, sub_t, carry = R.node, R.loop, R.target, R.carry
     it = L.ast.iter
-    ok = isinstance(it, ast.Call) and call_name(it) == "reversed" and isinstance(it.args[0], ast.Call) and call_name(it.args[0]) == "range" and len(it.args[0].args) == 1
-    ck.ob("C17.1", fn, it, ok, f"{label}: the recursion runs backwards over all time steps (reversed(range(T)))")
+    # any spelling of the iteration T-1, T-2, ..., 0 (reversed(range(T)), range(T - 1, -1, -1)); T = R.bound (that T is the rollout length is C17.7)
+    steps = R.bound
+    ck.ob("C17.1", fn, it, steps is not None, f"{label}: the recursion runs backwards over all time steps (reversed(range(T)))")
     tvar = R.tvar
     tt = R.tt
     ck.ob("C17.1", fn, sub_t, tvar is not None and tb.term(sub_t.slice, rn) == tt, f"{label}: A is written at the current time index")
@@ -200,6 +201,8 @@ def _gae(ck: Check, repo: Repo, fn: Fn, depth: int) -> None:
 
     # ---- pairing of the two cases: the last step uses (next_done, critic(next_state)); other steps use (dones[t+1], values[t+1])
     def pairing(s: ast.AST, v: Poly, is_last: bool) -> None:
+        # an element of a whole-array expression is the expression of the elements: (1 - dones)[t + 1] = 1 - dones[t + 1]
+        v = push_idx(tb, v, [])
         roles = tb.roles(v)
         if "next_done" in roles or ("done" in roles and "value" not in roles):
             okb = ("next_done" in roles) == is_last
@@ -222,23 +225,46 @@ def _gae(ck: Check, repo: Repo, fn: Fn, depth: int) -> None:
 
     # the case split is made in ONE way: an if-test on the time index, loop-carried successors (initialised with the last step's values before the loop and
     # re-assigned at the end of every iteration), or shifted successor arrays cat([X[1:], Y])
-    tests = [n for n in cfg.live_nodes() if n.kind == "test" and isinstance(n.stmt, ast.If) and any(x is n.stmt for x in ast.walk(L.ast))
-             and isinstance(n.ast, ast.Compare) and isinstance(n.ast.ops[0], (ast.Eq, ast.NotEq))]
+    def comparison(e: ast.AST, at: Node, d: int = 0) -> Optional[Tuple[ast.Compare, Node]]:
+        """the (in)equality a test stands for, looked up through single-definition temporaries (`last = t == T - 1; if last: ...`), with the node its
+        operands are evaluated at"""
+        if isinstance(e, ast.Compare) and len(e.ops) == 1 and isinstance(e.ops[0], (ast.Eq, ast.NotEq)):
+            return e, at
+        if isinstance(e, ast.Name) and d < 4:
+            defs = cfg.defs_reaching(at, e.id)
+            v = cfg.value_of_def(defs[0], e.id) if len(defs) == 1 else None
+            if v is not None and _in(L, defs[0]):
+                return comparison(v, defs[0], d + 1)
+        return None
+
+    cmp_of: Dict[int, Tuple[ast.Compare, Node]] = {}
+    tests = []
+    for n in cfg.live_nodes():
+        if n.kind == "test" and isinstance(n.stmt, ast.If) and any(x is n.stmt for x in ast.walk(L.ast)):
+            cn = comparison(n.ast, n)
+            if cn is not None:
+                cmp_of[n.id] = cn
+                tests.append(n)
     # several if-statements on the same comparison (one per conditional assignment) are one case split
     # ... and so is a conditional expression on it (`x = a if t == T - 1 else b`, when the front end has not already loaded it as a statement)
-    ifexps = [n for n in cfg.live_nodes() if n.kind == "stmt" and isinstance(n.ast, ast.Assign) and any(x is n.ast for x in ast.walk(L.ast)) and isinstance(n.ast.value, ast.IfExp)
-              and isinstance(n.ast.value.test, ast.Compare) and len(n.ast.value.test.ops) == 1 and isinstance(n.ast.value.test.ops[0], (ast.Eq, ast.NotEq))]
-    conds = {frozenset((tb.term(c.left, n).key(), tb.term(c.comparators[0], n).key())) for n, c in [(n, n.ast) for n in tests] + [(n, n.ast.value.test) for n in ifexps]}
+    ifexps = []
+    for n in cfg.live_nodes():
+        if n.kind == "stmt" and isinstance(n.ast, ast.Assign) and any(x is n.ast for x in ast.walk(L.ast)) and isinstance(n.ast.value, ast.IfExp):
+            cn = comparison(n.ast.value.test, n)
+            if cn is not None:
+                cmp_of[n.id] = cn
+                ifexps.append(n)
+    conds = {frozenset((tb.term(c.left, at).key(), tb.term(c.comparators[0], at).key())) for c, at in [cmp_of[n.id] for n in tests + ifexps]}
     carried = [R.carried[k] for k in sorted(R.carried)]
     mechanisms = len(conds) + (1 if carried else 0) + (1 if R.shifts else 0)
-    ck.ob("C17.1", fn, tests[0].ast if tests else L.ast, mechanisms == 1, f"{label}: one case split between the last step and the others",
+    ck.ob("C17.1", fn, cmp_of[tests[0].id][0] if tests else L.ast, mechanisms == 1, f"{label}: one case split between the last step and the others",
           detail=f"if-tests on the time index: {len(tests)}; loop-carried successors: {[c.name for c in carried]}; shifted successor arrays: {len(R.shifts)}", construct=f"{label}: last-step test")
     for t in tests if mechanisms == 1 else []:
-        l, r = tb.term(t.ast.left, t), tb.term(t.ast.comparators[0], t)
-        steps = tb.term(it.args[0].args[0], L) if ok else None
-        ck.ob("C17.1", fn, t.ast, steps is not None and ((l == tt and r == steps - Poly.const(1)) or (r == tt and l == steps - Poly.const(1))),
+        c, at = cmp_of[t.id]
+        l, r = tb.term(c.left, at), tb.term(c.comparators[0], at)
+        ck.ob("C17.1", fn, c, steps is not None and ((l == tt and r == steps - Poly.const(1)) or (r == tt and l == steps - Poly.const(1))),
               f"{label}: the special case is exactly t == T - 1", detail=f"{l.key()[:60]} == {r.key()[:60]}")
-        eq = isinstance(t.ast.ops[0], ast.Eq)
+        eq = isinstance(c.ops[0], ast.Eq)
         for branch, is_last in ((t.stmt.body, eq), (t.stmt.orelse, not eq)):
             for s in branch:
                 if not isinstance(s, ast.Assign):
@@ -246,9 +272,8 @@ def _gae(ck: Check, repo: Repo, fn: Fn, depth: int) -> None:
                 n = cfg.node_of(s)
                 pairing(s, tb.term(s.value, n), is_last)
     for n in ifexps if mechanisms == 1 else []:
-        c = n.ast.value.test
-        l, r = tb.term(c.left, n), tb.term(c.comparators[0], n)
-        steps = tb.term(it.args[0].args[0], L) if ok else None
+        c, at = cmp_of[n.id]
+        l, r = tb.term(c.left, at), tb.term(c.comparators[0], at)
         ck.ob("C17.1", fn, c, steps is not None and ((l == tt and r == steps - Poly.const(1)) or (r == tt and l == steps - Poly.const(1))),
               f"{label}: the special case is exactly t == T - 1", detail=f"{l.key()[:60]} == {r.key()[:60]}")
         eq = isinstance(c.ops[0], ast.Eq)
@@ -723,6 +748,24 @@ _GAE_CARRIED = """            advantages = torch.zeros_like(rewards).float()
                 following_value = values[step]
                 non_terminal = 1.0 - dones[{k}]
 """
+# the not-terminal factors of all steps at once before the loop (read at {k}: t + 1 is right), the case split by a named flag and conditional expressions, the
+# TD error over a temporary, the chained assignment split, the iteration spelled {rng}
+_GAE_HOISTED = """            advantages = torch.zeros_like(rewards).float()
+            non_terminal = 1.0 - dones
+            discount = self.gamma * self.gae_lambda
+            last_step = num_steps - 1
+            last_gae_lambda = 0
+            for t in {rng}:
+                is_last = t {op} last_step
+                next_non_terminal = 1.0 - next_done if is_last else non_terminal[{k}]
+                nextvalue = next_value.squeeze() if is_last else values[t + 1]
+
+                bootstrap = self.gamma * nextvalue * next_non_terminal
+                delta = rewards[t] + bootstrap - values[t]
+
+                last_gae_lambda = delta + discount * next_non_terminal * last_gae_lambda
+                advantages[t] = last_gae_lambda
+"""
 VARIANTS = [
     ("ppo-no-mask-on-value", _PPO, "rewards[t] + self.gamma * nextvalue * next_non_terminal - values[t]", "rewards[t] + self.gamma * nextvalue - values[t]", "fire", "C17.2"),
     ("ppo-no-mask-on-carry", _PPO, "+ self.gamma * self.gae_lambda * next_non_terminal * last_gae_lambda", "+ self.gamma * self.gae_lambda * last_gae_lambda", "fire", "C17.2"),
@@ -798,6 +841,16 @@ VARIANTS = [
 """, """                next_non_terminal = 1.0 - next_done if t == num_steps - 1 else 1.0 - dones[t]
                 nextvalue = next_value.squeeze() if t == num_steps - 1 else values[t + 1]
 """, "fire", "C17.1"),
+    # round 4: backward iteration in another spelling, the mask read from a whole-array expression computed before the loop, the test through a named flag
+    ("ppo-descending-range-ok", _PPO, "for t in reversed(range(num_steps)):", "for t in range(num_steps - 1, -1, -1):", "silent", None),
+    ("ppo-descending-range-stops-before-step-0", _PPO, "for t in reversed(range(num_steps)):", "for t in range(num_steps - 1, 0, -1):", "fire", "C17.1"),
+    ("ppo-descending-range-starts-one-short", _PPO, "for t in reversed(range(num_steps)):", "for t in range(num_steps - 2, -1, -1):", "fire", "C17"),
+    ("ppo-hoisted-mask-named-flag-ok", _PPO, _GAE_OLD.replace("{nv}", "next_value.squeeze()"),
+     _GAE_HOISTED.replace("{rng}", "range(last_step, -1, -1)").replace("{op}", "==").replace("{k}", "t + 1"), "silent", None),
+    ("ppo-hoisted-mask-own-step", _PPO, _GAE_OLD.replace("{nv}", "next_value.squeeze()"),
+     _GAE_HOISTED.replace("{rng}", "range(last_step, -1, -1)").replace("{op}", "==").replace("{k}", "t"), "fire", "C17"),
+    ("ppo-named-flag-inverted", _PPO, _GAE_OLD.replace("{nv}", "next_value.squeeze()"),
+     _GAE_HOISTED.replace("{rng}", "reversed(range(num_steps))").replace("{op}", "!=").replace("{k}", "t + 1"), "fire", "C17.1"),
     ("ppo-carry-gated-by-current-done", _PPO, "+ self.gamma * self.gae_lambda * next_non_terminal * last_gae_lambda", "+ self.gamma * self.gae_lambda * (1.0 - dones[t]) * last_gae_lambda", "fire", "C17.7"),
     ("ppo-returns-renamed-ok", _PPO, "            returns = advantages + values\n\n        # Flatten experiences from (batch_size, num_envs, ...) to (batch_size*num_envs, ...)\n        # after checking if experiences are vectorized\n        experiences = (states, actions, log_probs, advantages, returns, values)",
      "            targets = advantages + values\n\n        experiences = (states, actions, log_probs, advantages, targets, values)", "silent", None),
